@@ -261,10 +261,31 @@ NOWRAP_OPS = {"MACRO", "ENDM", "END", "INCLUDE", "IRP", "IRPC", "REPT", "WHILE",
               "NEWPAGE", "PAGE", "PAGESIZE", "TITLE", "PRTINIT", "PRTEXIT"}
 
 
+_SALT = [0]
+
+
+def _casefn(mode):
+    """upper / lower / swap; "alt" = an arbitrary per-letter assignment (drawn from a generator seeded by the
+    text, so that a replay reproduces it)"""
+    if mode == "alt":
+        import random
+        rr = random.Random(0)
+
+        def f(txt):
+            rr.seed("%s/%d" % (txt, _SALT[0]))
+            return "".join(ch.upper() if rr.random() < 0.5 else ch.lower() for ch in txt)
+        return f
+    return {"upper": str.upper, "lower": str.lower}.get(mode, str.swapcase)
+
+
 def _case(s, mode, qq):
     if mode == "keep" or not s:
         return s
     inq, _ = quote_states(s, 0, qq)
+    if mode == "alt":
+        g = _casefn(mode)
+        t = g(s)
+        return "".join(s[i] if (inq[i] or not s[i].isascii()) else t[i] for i in range(len(s)))
     f = {"upper": str.upper, "lower": str.lower}.get(mode, str.swapcase)
     return "".join(ch if (inq[i] or not ch.isascii()) else f(ch) for i, ch in enumerate(s))
 
@@ -279,7 +300,7 @@ def _case_symbols(s, mode, qq, symset):
     if mode == "keep" or not s or not symset:
         return s
     inq, _ = quote_states(s, 0, qq)
-    f = {"upper": str.upper, "lower": str.lower}.get(mode, str.swapcase)
+    f = _casefn(mode)
     out = []
     last = 0
     for m in _TOKEN.finditer(s):
@@ -299,6 +320,8 @@ def rewrite_line(raw, rec, vec, stats, info=None):
     info (dict) receives what was done to the line: dtab, cmt_changed, apos_end, cpu."""
     if info is None:
         info = {}
+    import zlib
+    _SALT[0] = zlib.crc32(raw.encode("latin-1", "replace"))
     if rec is None or rec["e"]["raw"] != raw:
         stats["untouched"] += 1
         return raw
